@@ -100,6 +100,22 @@ func c03Check(c *oracleCtx, tree *ast.Program, cfg, cls string, input map[string
 			fail("tree-mismatch", c02Diff(want, got))
 			return
 		}
+		// the other parser modes read the printed text the same way (the printer's layout never relies on the default mode)
+		modes := []string{"t"}
+		if !lineInitialCallOrIndex(code) { // a comment kept inside an expression can put a `(` first on a line: smart mode reads that differently by design
+			modes = []string{"s", "t", "ts"}
+		}
+		for _, fl := range modes {
+			m := parseB(fl, code)
+			if len(m.errs) > 0 {
+				fail("reparse-error", "printed text does not parse in mode "+fl+": "+oaErrText(m.errs))
+				return
+			}
+			if got := treegen.Shape(m.prog); got != treegen.Shape(re) {
+				fail("tree-mismatch", "in parser mode "+fl+" the printed text reads differently: "+c02Diff(treegen.Shape(re), got))
+				return
+			}
+		}
 		if codeHasHTMLCommentOpener(code) {
 			fail("html-comment-opener", "the printed text contains `<!--`, which a JavaScript script reads as a comment opener")
 			return
@@ -283,13 +299,21 @@ func c03Witnesses(c *oracleCtx) {
 		treegen.Program(treegen.If(id("a"), es(treegen.Postfix("++", treegen.Member(treegen.Object(), "a"))), nil)),
 		// printer-made parentheses around a function expression (pretty output only)
 		treegen.ExprProgram(treegen.Bin("*", id("a"), treegen.Bin("+", id("b"), treegen.Func("", nil, blk(es(id("c"))))))),
+		// a token that spans lines right after `return` / before a postfix operator / before a call
+		treegen.Program(treegen.FuncDecl("g", nil, blk(treegen.Return(treegen.RawStr("a\nb"))))),
+		treegen.Program(treegen.FuncDecl("g", nil, blk(treegen.Return(treegen.Bin("+", treegen.RawStr("a\nb"), one))))),
+		treegen.Program(treegen.FuncDecl("g", nil, blk(treegen.Return(treegen.Member(treegen.RawStr("a\n\nb"), "length"))))),
+		treegen.ExprProgram(treegen.Postfix("++", treegen.Index(treegen.RawStr("a\nb"), one))),
+		treegen.ExprProgram(treegen.Call(treegen.Index(treegen.RawStr("a\nb"), one), id("c"))),
+		treegen.Program(es(treegen.Assign(id("x"), id("a"))), es(treegen.Prefix("++", id("b")))),
+		treegen.Program(es(treegen.Assign(id("x"), id("a"))), es(treegen.Prefix("--", id("b"))), es(treegen.Prefix("!", id("c")))),
 		// dangling else
 		treegen.Program(treegen.If(id("a"), treegen.If(id("b"), es(id("c")), nil), es(id("a")))),
 		treegen.Program(treegen.If(id("a"), treegen.While(id("b"), treegen.If(id("c"), es(one), nil)), es(id("a")))),
 		treegen.Program(treegen.If(id("a"), treegen.For(nil, nil, nil, treegen.If(id("c"), blk(), nil)), blk())),
 		treegen.Program(treegen.If(id("a"), treegen.If(id("b"), blk(), treegen.If(id("c"), blk(), nil)), blk())),
 	} {
-		c03Programmatic(c, p, c03Cfgs, false)
+		c03Programmatic(c, p, append(append([]string{}, c03Cfgs...), "p:09:0"), false)
 	}
 	made := map[string]int{}
 	for i := 0; i < 20000 && !c.expired() && (made[clsStmtStart] < 10 || made[clsDanglingElse] < 10 || made[clsParenIndent] < 10); i++ {
